@@ -480,20 +480,17 @@ def c05_length(R):
     # bit-vector-sort path <L> is the size of the Z3 sort of the very term being abstracted
     # only the sort local needs resolving (resolving everything in this 150-line function is needlessly expensive)
     abr = util.inline_aliases(ab, lambda v: isinstance(v, ast.Call) and dotted(v.func) == "z3.Z3_get_sort")
-    builds = [
-        c
-        for c in ast.walk(abr)
-        if isinstance(c, ast.Call) and isinstance(util.kw(c, "length"), ast.Name) and len(c.args) == 2 and ast.unparse(c.args[1]).startswith("tuple(")
-    ]
-    widths = {util.kw(c, "length").id for c in builds}
-    sized = [
-        st
-        for st in ast.walk(abr)
-        if isinstance(st, ast.Assign)
-        and isinstance(st.targets[0], ast.Name)
-        and st.targets[0].id in widths
-        and ast.unparse(st.value) == "z3.Z3_get_bv_sort_size(ctx, z3.Z3_get_sort(ctx, ast))"
-    ]
+    SIZE = "z3.Z3_get_bv_sort_size(ctx, z3.Z3_get_sort(ctx, ast))"
+
+    def has_size(e):
+        return any(isinstance(x, ast.Call) and ast.unparse(x) == SIZE for x in ast.walk(e))
+
+    builds = [c for c in ast.walk(abr) if isinstance(c, ast.Call) and util.kw(c, "length") is not None and len(c.args) == 2 and ast.unparse(c.args[1]).startswith("tuple(")]
+    widths = {util.kw(c, "length").id for c in builds if isinstance(util.kw(c, "length"), ast.Name)}
+    # the width is the sort size: written into the local that is passed as length=, or given directly (possibly as
+    # one arm of a conditional expression over the sort kind)
+    sized = [st for st in ast.walk(abr) if isinstance(st, ast.Assign) and isinstance(st.targets[0], ast.Name) and st.targets[0].id in widths and has_size(st.value)]
+    sized += [c for c in builds if not isinstance(util.kw(c, "length"), ast.Name) and has_size(util.kw(c, "length"))]
     R.check(
         len(builds) >= 1 and len(sized) >= 1,
         tree.mod(Z3),
